@@ -6,6 +6,7 @@ from engine.sqfprog import vm_value
 
 ID = "C12"
 LEVEL = "exploration"
+HANG_IS_VIOLATION = True     # every generated case terminates under the model: no reply (twice, then 3x confirmation) is a violation
 ENGINE = "E-hyp"
 TECHNIQUE = "schedule exploration with owned slice length and virtual clock (hooks H1,H2) and invariants over the recorded history of every instruction and scheduler visit (hooks H3,H4); small configurations enumerated exhaustively in the thorough tier"
 RULE = ("cases = 1-6 spawned scripts, each a list of 1-12 steps from {marker, local computation of 1-40 instructions, sleep 0..1 s, spawn a child, terminate an "
